@@ -313,11 +313,20 @@ def oracle_disagrees(v, p, cps):
 
 # ----------------------------------------------------------------------------- correspondence
 
+def fl(v):
+    """float view of a result of the real code; anything that is not a real number (Python's float ** float can
+    return a complex for a negative base) counts as NaN, i.e. as a non-finite norm"""
+    try:
+        return float(v)
+    except (TypeError, ValueError):
+        return math.nan
+
+
 def canon(res):
     st, v, _ = res
     if st == "err":
         return "err:" + v
-    return float(v)
+    return fl(v)
 
 
 def run(ctx):
@@ -380,7 +389,7 @@ def run(ctx):
         seg_stats(ctx, cps)
 
     # --- exact landscapes and their combinations
-    for i in range(ctx.n(1000, 12000)):
+    for i in range(ctx.n(1000, 25000)):
         diag_p = 0.5 if r.random() < 0.1 else 0.0
         mode, scale, dgms = gen_family(ctx, 3, diag_p)
         Ls = [mk_exact(d) for d in dgms]
@@ -393,7 +402,7 @@ def run(ctx):
         add_pnorm_jobs("exact:" + kind, L, cps, i)
 
     # --- grid landscapes and their combinations
-    for i in range(ctx.n(600, 7000)):
+    for i in range(ctx.n(600, 14000)):
         mode, scale, dgms = gen_family(ctx, 3)
         lo = min(b[0] for d in dgms for b in d)
         hi = max(b[1] for d in dgms for b in d)
@@ -413,7 +422,7 @@ def run(ctx):
         add_pnorm_jobs("grid:" + kind, A, cps, i, grid=(grid, vals))
 
     # --- _p_norm directly on synthetic piecewise-linear functions
-    for i in range(ctx.n(1000, 12000)):
+    for i in range(ctx.n(1000, 25000)):
         cps = gen_synthetic(ctx)
         seg_stats(ctx, cps)
         p = gen_p_nat(ctx, i)
@@ -427,7 +436,7 @@ def run(ctx):
         jobs.append(("pl.sup %s" % enc(cps), "sup", {"src": "synthetic", "cps": cps, "code": canon(call(L.sup_norm))}))
 
     # --- malformed / edge stream: argument validation of base.py, p = 0, vertical segments
-    for i in range(ctx.n(200, 1500)):
+    for i in range(ctx.n(200, 3000)):
         cps = gen_synthetic(ctx)
         p = r.choice([-2.0, -1.5, -1.0000001, -0.5, -1e-9, 0.0, 0.5, 0.999, -3.0, 0.25])
         if r.random() < 0.25:                      # a vertical segment (Python floats: ZeroDivisionError)
@@ -543,7 +552,7 @@ def eval_laws(case, ctx=None):
 
     def nrm(L):
         """(norm, absolute rounding allowance of the code's own formula for this landscape)"""
-        v = float(L.p_norm(p))
+        v = fl(L.p_norm(p))
         cp = cps_any(L)
         rb = rounding_bound(p, cp)
         if not math.isfinite(v) or v <= 0.0:
@@ -558,12 +567,12 @@ def eval_laws(case, ctx=None):
         nP, eP = zip(*[nrm(L) for L in Ls])
         ncA, ecA = nrm(c * A)
         z = P1 - P1
-        nz, sz = float(z.p_norm(p)), float(z.sup_norm())
+        nz, sz = fl(z.p_norm(p)), fl(z.sup_norm())
         G = 1.5 * P1 + (-2.0) * P2 + 0.5 * P3
         nG, eG = nrm(G)
         nBA, eBA = nrm(P2 - P1)
-        sA, scA = float(A.sup_norm()), float((c * A).sup_norm())
-        sAB, sB = float((A + B).sup_norm()), float(B.sup_norm())
+        sA, scA = fl(A.sup_norm()), fl((c * A).sup_norm())
+        sAB, sB = fl((A + B).sup_norm()), fl(B.sup_norm())
     res["_ill"] = max(eA / nA if nA > 0 else 0.0, ecA / ncA if ncA > 0 else 0.0, eAB / nAB if nAB > 0 else 0.0,
                       eB / nB if nB > 0 else 0.0, eG / nG if nG > 0 else 0.0) > TOL
     res["finite"] = all(math.isfinite(v) and v >= 0 for v in [nA, nB, nAB, ncA, nz, nG, sA] + list(nP))
@@ -600,7 +609,7 @@ def perturb_dgm(r, d, scale, delta):
 
 def laws(ctx):
     r = ctx.rng
-    for i in range(ctx.n(800, 9000)):
+    for i in range(ctx.n(800, 18000)):
         mode, scale, dgms = gen_family(ctx, 3)
         perturb = r.random() < 0.6
         if perturb:
@@ -638,19 +647,19 @@ def laws(ctx):
                 return
     # oracle stream: the real code against adaptive quadrature (natural and real p)
     ex, ap, aux = _mods()
-    for i in range(ctx.n(400, 4000)):
+    for i in range(ctx.n(400, 8000)):
         if r.random() < 0.5:
             cps = gen_synthetic(ctx)
         else:
             mode, scale, dgms = gen_family(ctx, 2)
             cps = cps_of(mk_exact(dgms[0]) - mk_exact(dgms[1]))
         p = gen_p_real(ctx) if r.random() < 0.5 else r.randint(1, 20)
-        v = float(quiet(aux._p_norm, p, cps))
+        v = fl(quiet(aux._p_norm, p, cps))
         bad, o = oracle_disagrees(v, p, cps)
         ctx.test("quadrature_oracle", not bad)
         so = oracle_sup(cps)
         L = ex.PersLandscapeExact(critical_pairs=cps, hom_deg=0)
-        sv = float(L.sup_norm())
+        sv = fl(L.sup_norm())
         ctx.test("sup_oracle", so == sv)
         if bad:
             ctx.violation("_p_norm(p=%r) = %r but the integral gives %r (quadrature oracle)"
@@ -668,14 +677,14 @@ def replay(ctx, rep):
     ex, ap, aux = _mods()
     kind = c.get("kind")
     if kind == "pnorm":
-        v = float(quiet(aux._p_norm, c["p"], c["cps"]))
+        v = fl(quiet(aux._p_norm, c["p"], c["cps"]))
         bad, o = oracle_disagrees(v, c["p"], c["cps"])
         print("persim.landscapes.auxiliary._p_norm(%r, %r) = %r" % (c["p"], c["cps"], v))
         print("integral (quadrature, split at breakpoints and roots): %r" % (None if o is None else o ** (1.0 / c["p"])))
         return not bad
     if kind == "sup":
         L = ex.PersLandscapeExact(critical_pairs=c["cps"], hom_deg=0)
-        v, o = float(L.sup_norm()), oracle_sup(c["cps"])
+        v, o = fl(L.sup_norm()), oracle_sup(c["cps"])
         print("sup_norm = %r, largest |value| = %r" % (v, o))
         return v == o
     if kind == "law":
